@@ -48,13 +48,26 @@ def lookup_ok(env, problems, who):
                 return
 
 
+class Provider:
+    """a disposable supplying state"""
+    def __init__(self, states):
+        self.states = states
+
+    async def __aenter__(self):
+        await asyncio.sleep(0)
+        return list(self.states)
+
+    async def __aexit__(self, *a):
+        return None
+
+
 async def program(rng, env, depth, problems, who, children, budget):
     lookup_ok(env, problems, who)
     await asyncio.sleep(0)
     if depth == 0 or problems:
         return
     for _ in range(rng.randint(1, 2)):
-        kind = rng.choice(["scope", "ascope", "updated", "spawn", "task", "handoff"])
+        kind = rng.choice(["scope", "ascope", "updated", "spawn", "task", "handoff", "adisp"])
         supplied = [rng.choice(TYPES)(v=rng.randint(1, 999)) for _ in range(rng.randint(0, 2))]
         frame = {type(s): s for s in supplied}
         if kind == "handoff":
@@ -112,6 +125,10 @@ async def program(rng, env, depth, problems, who, children, budget):
                 lookup_ok(inner, problems, who)
         elif kind == "ascope":
             async with ctx.scope("s", *supplied):
+                await program(rng, inner, depth - 1, problems, who, children, budget)
+                lookup_ok(inner, problems, who)
+        elif kind == "adisp":           # all of the scope's state comes from its disposables
+            async with ctx.scope("s", disposables=[Provider(supplied)]):
                 await program(rng, inner, depth - 1, problems, who, children, budget)
                 lookup_ok(inner, problems, who)
         else:
